@@ -26,11 +26,17 @@ for d in sorted(glob.glob(os.path.join(VERIF, "seeded", "*"))):
         continue
     res = {}
     try:
+        todo = [p for p in (PROPS if allp else [prop]) if p in PROPS]
         for p in (PROPS if allp else [prop]):
             if p not in PROPS:
                 res[p] = {"exit": None, "note": "property not claimed"}
-                continue
-            c = subprocess.run([os.path.join(VERIF, "bin", "check"), p], capture_output=True, text=True)
+        def one(p):
+            return p, subprocess.run([os.path.join(VERIF, "bin", "check"), p, "--no-evidence"], capture_output=True, text=True)
+        first = [one(todo[0])]   # warms the fact cache for this tree
+        from concurrent.futures import ThreadPoolExecutor
+        with ThreadPoolExecutor(8) as ex:
+            rest = list(ex.map(one, todo[1:]))
+        for p, c in first + rest:
             keys = re.findall(r"^  key=(.*)$", c.stdout, re.M)
             res[p] = {"exit": c.returncode, "violations": keys[:8]}
             if c.returncode not in (0, 1):
